@@ -130,8 +130,14 @@ Definition shared_user (g : grant) : bool :=
   match g_type g with CpuNormal => bool_decide (g_excl g = ∅) || (0 <? g_portion g) | _ => false end.
 Definition has_shared_user (s : st) (d : nat) : bool :=
   existsb (fun kv => Nat.eqb (g_pool (snd kv)) d && shared_user (snd kv)) (map_to_list (grants s)).
-Definition desc_users_okb (t : tree) (s : st) (p : nat) (X : cset) : bool :=
-  forallb (fun d => negb (anc t p d) || Nat.eqb d p || negb (bool_decide (free_shar s d ∖ X = ∅)) || negb (has_shared_user s d)) (pools t).
+(* what the code does (neededSharableCPUs): in every pool strictly below, as many sharable CPUs as the shared capacity
+   granted in its subtree takes (at least one if a container runs on its shared CPUs) are withheld from the choice --
+   as far as the pool still has them *)
+Definition need_of (t : tree) (s : st) (d : nat) : Z :=
+  Z.max ((granted_sub t (gr_shared s) d + 999) / 1000) (if has_shared_user s d then 1 else 0).
+Definition spare_okb (t : tree) (s : st) (p : nat) (X : cset) : bool :=
+  forallb (fun d => negb (anc t p d) || Nat.eqb d p ||
+                    (Z.min (need_of t s d) (csize (free_shar s d)) <=? csize (free_shar s d ∖ X))) (pools t).
 
 (* "exclusive reserved CPUs not supported, allocating full CPUs as fractions" *)
 Definition eff_full (r : creq) : Z :=
@@ -153,7 +159,7 @@ Definition ta_alloc (t : tree) (s : st) (cid : nat) (r : creq) (p : nat) (X : cs
       else if 1000 * full <? alloc_shared t s p then
         if subseteqb X (free_shar s p) && (csize X =? full) then
           (* the slice leaves every pool below enough sharable CPUs for what is granted there (repair of K2) *)
-          if desc_safeb t s p X && desc_users_okb t s p X then Ok X else Err (ErrGuard 12)
+          if spare_okb t s p X then Ok X else Err (ErrGuard 12)
         else Err (ErrGuard 2)
       else Err ErrNoCapacity
     else if bool_decide (X = ∅) then Ok ∅ else Err (ErrGuard 3) in
